@@ -65,12 +65,20 @@ where
     fn is_bareword(s: &str) -> bool {
         match s.chars().nth(0) {
             Some(c) => {
-                if !(c.is_ascii_alphabetic() || c == '_') {
+                // The tokenizer only starts a bareword at a letter.
+                if !c.is_ascii_alphabetic() {
                     return false;
                 }
             }
             None => return false,
         };
+        // The tokenizer splits these prefixes off as tokens of their own.
+        if s.starts_with("NULL")
+            || (s.starts_with("true") && s != "true")
+            || (s.starts_with("false") && s != "false")
+        {
+            return false;
+        }
         for c in s.chars() {
             if !(c.is_ascii_alphabetic() || c == '_') {
                 return false;
